@@ -846,6 +846,151 @@ fn main() {
 """, bad + " //~ERR", twin)
 
 
+# ------------------------------------------------------------------------------------------
+# Systematic cross products over the acquiring API surface (8 owner types x every method that
+# takes a key).  The hand-written routes above cover escape *shapes*; these cover every *site*.
+
+# name, setup (payload i32 behind one lock called m), has shared mode, excl method names
+# (blocking, try, scoped, scoped_try), projection of the closure argument to &mut i32 / &i32
+API_OWNERS = [
+    ("mutex", "let m = Mutex::new(1);", False, ("lock", "try_lock", "scoped_lock", "scoped_try_lock"), "d"),
+    ("rwlock", "let m = RwLock::new(1);", True, ("write", "try_write", "scoped_write", "scoped_try_write"), "d"),
+    ("poisonable", "let m = Poisonable::new(Mutex::new(1));", False, ("lock", "try_lock", "scoped_lock", "scoped_try_lock"), "d.unwrap()"),
+    ("poisonable_rwlock", "let m = Poisonable::new(RwLock::new(1));", True, ("lock", "try_lock", "scoped_lock", "scoped_try_lock"), "d.unwrap()"),
+    ("boxed", "let m = BoxedLockCollection::new((RwLock::new(1),));", True, ("lock", "try_lock", "scoped_lock", "scoped_try_lock"), "d.0"),
+    ("ref", "let data = (RwLock::new(1),); let m = RefLockCollection::new(&data);", True, ("lock", "try_lock", "scoped_lock", "scoped_try_lock"), "d.0"),
+    ("owned", "let m = OwnedLockCollection::new((RwLock::new(1),));", True, ("lock", "try_lock", "scoped_lock", "scoped_try_lock"), "d.0"),
+    ("retrying", "let m = RetryingLockCollection::new((RwLock::new(1),));", True, ("lock", "try_lock", "scoped_lock", "scoped_try_lock"), "d.0"),
+]
+SHARED_METHODS = ("read", "try_read", "scoped_read", "scoped_try_read")
+
+_existing = set(r["name"] for r in ROUTES)
+
+# ---- C14: something that is not the thread's key in the key position of every acquiring method
+for oname, setup, shared, excl, proj in API_OWNERS:
+    methods = list(excl) + (list(SHARED_METHODS) if shared else [])
+    for meth in methods:
+        scoped = meth.startswith("scoped_")
+        tryish = "try" in meth
+        for argname, arg in [("unit", "()"), ("shared_ref", "&key")] + ([] if scoped else [("mut_ref", "&mut key")]):
+            if scoped:
+                tail = ".ok().unwrap_or(false)" if tryish else ""
+                call = "let free_key = m.%s(KEY, |_| ThreadKey::get().is_some())%s;" % (meth, tail)
+            else:
+                call = "let g = m.%s(KEY); let free_key = ThreadKey::get().is_some();" % meth
+            if arg == "()":
+                bad = "drop(key); " + call.replace("KEY", "()") + " //~ERR"
+            elif arg == "&key":
+                # a shared reference can be copied: accepting it means two simultaneous acquisitions
+                bad = call.replace("KEY", "&key").replace("ThreadKey::get().is_some()", "true") + " //~ERR"
+            else:
+                bad = "let mut key = key; " + call.replace("KEY", "&mut key").replace("ThreadKey::get().is_some()", "true") + " //~ERR"
+            twin = call.replace("KEY", "key")
+            route("C14", "nonkey_%s_%s_%s" % (argname, oname, meth), ["E0277", "E0308"], """
+fn main() {
+    let key = ThreadKey::get().unwrap();
+    %s
+    @@
+    if free_key {
+        println!("WITNESS: %s::%s accepted `%s` in the key position: the hold exists while the thread still has a usable key");
+        std::process::exit(1);
+    }
+}
+""" % (setup, oname, meth, arg),
+                  bad, twin)
+
+# ---- C15: the reference handed to a scoped closure must not leave the call
+ESC_CODES = ["lifetime", "E0521", "E0597", "E0515", "E0499", "E0502", "E0506", "E0312", "E0495", "E0716"]
+D3B_OWNERS = ("poisonable", "poisonable_rwlock", "boxed", "ref", "owned", "retrying")
+for oname, setup, shared, excl, proj in API_OWNERS:
+    unit_proj = "()"
+    # exclusive: scoped / scoped_try
+    for meth in excl[2:]:
+        tail = ".ok().unwrap()" if "try" in meth else ""
+        call = "m.%s(&mut key, |d| %s)%s" % (meth, proj, tail)
+        call_unit = "m.%s(&mut key, |d| ())%s" % (meth, tail)
+        name = "scoped_return_escape_%s_%s" % (oname, meth)
+        if name not in _existing:
+            route("C15", name, ESC_CODES, """
+fn main() {
+    let mut key = ThreadKey::get().unwrap();
+    %s
+    @@
+    let (pa, pb) = (a as *mut i32 as usize, b as *mut i32 as usize);
+    if pa == pb {
+        println!("WITNESS: two live &mut to the same protected value were obtained with no lock held");
+        std::process::exit(1);
+    }
+}
+""" % setup,
+                  "let a: &mut i32 = %s; let b: &mut i32 = %s; //~ERR" % (call, call),
+                  "let mut x = 0; let mut y = 0; let (a, b) = (&mut x, &mut y); %s;" % call_unit,
+                  note="D3b" if oname in D3B_OWNERS else "")
+        if oname in D3B_OWNERS:
+            continue
+        # capture through a Cell (the closures are Fn)
+        route("C15", "scoped_cell_capture_escape_%s_%s" % (oname, meth), ESC_CODES, """
+use std::cell::Cell;
+fn main() {
+    let mut key = ThreadKey::get().unwrap();
+    %s
+    let out: Cell<Option<&mut i32>> = Cell::new(None);
+    @@
+    let a = out.take().unwrap() as *mut i32 as usize;
+    let b = m.%s(&mut key, |d| d as *mut i32 as usize)%s;
+    if a == b {
+        println!("WITNESS: a &mut smuggled out of a scoped closure through a Cell still points at the protected value after the call");
+        std::process::exit(1);
+    }
+}
+""" % (setup, meth, tail),
+              "m.%s(&mut key, |d| { out.set(Some(d)); })%s; //~ERR" % (meth, tail),
+              "m.%s(&mut key, |d| { *d += 1; })%s; let mut z = 0; out.set(Some(&mut z));" % (meth, tail))
+    if not shared:
+        continue
+    write_call = {"rwlock": "m.scoped_write(&mut key, |d| *d += 1);",
+                  "poisonable_rwlock": "m.scoped_lock(&mut key, |d| *d.unwrap() += 1);"}.get(oname, "m.scoped_lock(&mut key, |d| *d.0 += 1);")
+    for meth in SHARED_METHODS[2:]:
+        tail = ".ok().unwrap()" if "try" in meth else ""
+        name = "scoped_shared_ref_escapes_%s_%s" % (oname, meth)
+        if name in _existing:
+            continue
+        route("C15", name, ESC_CODES, """
+fn main() {
+    let mut key = ThreadKey::get().unwrap();
+    %s
+    @@
+    %s
+    if *r == 2 {
+        println!("WITNESS: a shared reference obtained inside %s is still alive across a write and observes it: {}", *r);
+        std::process::exit(1);
+    }
+}
+""" % (setup, write_call, meth),
+              "let r: &i32 = m.%s(&mut key, |d| %s)%s; //~ERR" % (meth, proj, tail),
+              "let v: i32 = m.%s(&mut key, |d| *%s)%s; let r = &v;" % (meth, proj, tail),
+              note="D3b" if oname in D3B_OWNERS else "")
+        if oname in D3B_OWNERS:
+            continue
+        route("C15", "scoped_cell_capture_escape_%s_%s" % (oname, meth), ESC_CODES, """
+use std::cell::Cell;
+fn main() {
+    let mut key = ThreadKey::get().unwrap();
+    %s
+    let out: Cell<Option<&i32>> = Cell::new(None);
+    @@
+    let r = out.take().unwrap();
+    %s
+    if *r == 2 {
+        println!("WITNESS: a shared reference smuggled out of %s through a Cell is alive across a write and observes it");
+        std::process::exit(1);
+    }
+}
+""" % (setup, write_call, meth),
+              "m.%s(&mut key, |d| { out.set(Some(%s)); })%s; //~ERR" % (meth, proj, tail),
+              "m.%s(&mut key, |d| { let _ = *%s; })%s; let z = 1; out.set(Some(&z));" % (meth, proj, tail))
+
+
 def emit():
     for prop in ("C14", "C15", "C07"):
         d = os.path.join(ROOT, prop)
